@@ -72,7 +72,7 @@ theorem mlyCand_allVC (r : Rule) (p : Inst) (nti : Nat) (hr : WfRule r) (hp : Wf
   intro t ht; have := hr.dow t ht; omega
 
 /-- … the entries of the month's list that BYSETPOS chooses -/
-theorem mem_mEp_iff (r : Rule) (p : Inst) (nti : Nat) (hr : WfRule r) (hp : WfInst p) (hs : SeedOk r p)
+theorem mem_mEp_iff (r : Rule) (p : Inst) (nti : Nat) (hr : WfRule r) (hp : WfInst p)
     (hsup : MlySup r) (hy : 1901 ≤ p.y) (hf : r.freq = 2) (hsh : r.shift = 0) (hpos : r.pos ≠ [])
     (q : Nat × Int) (hq : mReach r p q) (hq2 : q.1 ≤ 2099) (z : Inst) :
     z ∈ mEp r p nti q ↔ z ∈ mE r p nti q ∧ SetposOk r p z := by
@@ -81,9 +81,9 @@ theorem mem_mEp_iff (r : Rule) (p : Inst) (nti : Nat) (hr : WfRule r) (hp : WfIn
   show (∃ i, (mE r p nti q)[i]? = some z ∧ PosSel r.pos i (mE r p nti q).length) ↔ _
   constructor
   · rintro ⟨i, hi, hs'⟩
-    exact ⟨List.mem_of_getElem? hi, (mE_setpos r p nti hr hp hs hsup hy hf hpos q hq hq2 z i hi).2 hs'⟩
+    exact ⟨List.mem_of_getElem? hi, (mE_setpos r p nti hr hp hsup hy hf hpos q hq hq2 z i hi).2 hs'⟩
   · rintro ⟨hz, hs'⟩
     obtain ⟨i, hi⟩ := List.getElem?_of_mem hz
-    exact ⟨i, hi, (mE_setpos r p nti hr hp hs hsup hy hf hpos q hq hq2 z i hi).1 hs'⟩
+    exact ⟨i, hi, (mE_setpos r p nti hr hp hsup hy hf hpos q hq hq2 z i hi).1 hs'⟩
 
 end Echse.Lemmas.RrMlyRfc
